@@ -76,7 +76,7 @@ Proof.
     assert (HL : asc 0 (merge_keys l tmp)) by (apply merge_keys_asc; assumption).
     revert Bd. cbn [sp k_cl k_tmp k_p cl_of_keys cl_count]. intro Bd.
     pose proof (merge_keys_length l tmp) as ML.
-    pose proof (enc_keys_length (merge_keys l tmp) 0) as [_ EL].
+    pose proof (enc_keys_len_bounds (merge_keys l tmp) 0) as [_ EL].
     pose proof (pow_p_bounds p A B) as [_ PB].
     set (L := merge_keys l tmp) in *. clearbody L.
     apply unmarshal_sparse; try assumption.
